@@ -42,6 +42,16 @@ def fixed_sims():
     out.append(S('fixed-leap', unit='month', start='D2020-02-29', dur='50', dt='12.0'))
     out.append(S('fixed-leap', unit='year', start='D2020-02-29', dur='8', dt='1.0'))
     out.append(S('fixed-leap', unit='year', start='D1996-01-01', dur='10', dt='0.5'))
+    # the requested stop IS a grid point (so it must be the last point), date start and date stop, every unit, starting in leap
+    # and non-leap years, one to four units long
+    for y in (2000, 2001, 2003, 2004, 2096, 2100):
+        for k in (1, 2, 3, 4):
+            for dt in ('1.0', '0.5'):
+                out.append(S('fixed-stop-on-grid', unit='year', start=f'D{y}-01-01', stop=f'D{y + k}-01-01', dt=dt))
+        out.append(S('fixed-stop-on-grid', unit='month', start=f'D{y}-01-31', stop=f'D{y + 1}-01-31', dt='3.0'))
+        out.append(S('fixed-stop-on-grid', unit='month', start=f'D{y}-02-01', stop=f'D{y}-03-01', dt='1.0'))
+        out.append(S('fixed-stop-on-grid', unit='week', start=f'D{y}-02-01', stop=f'D{y}-03-14', dt='2.0'))
+        out.append(S('fixed-stop-on-grid', unit='day', start=f'D{y}-02-20', stop=f'D{y}-03-02', dt='1.0' if y % 4 else '2.0'))
     # numeric day/week/month timelines across leap years and a non-leap century
     for start in ('2000', '2003', '1900', '2100', '0'):
         out.append(S('fixed-leap-numeric', unit='day', start=start, dur='800', dt='10.0'))
@@ -144,12 +154,52 @@ def single_overrides(sim):
     return mods
 
 
+def equal_count_mods(sim):
+    """ modules whose timeline has AS MANY POINTS as the sim's but denotes OTHER instants (several fields overridden together so
+        that the counts coincide): half the step over the second / the first half of the sim, twice the step over twice the
+        span (ending after the sim), the same step shifted by half a step, another unit over as many of its own steps.
+        Equal length must never be taken for equal timelines """
+    from fractions import Fraction as F
+    import datetime as dtm
+    unit = sim['unit']
+    date = str(sim.get('start', '')).startswith('D')
+    sdt = F(sim['dt'])
+    def fl(q): return repr(float(q))
+    mods = []
+    if not date:
+        s0 = F(sim['start']); end = F(sim['stop']) if 'stop' in sim else s0 + F(sim['dur'])
+        n = (end - s0) // sdt                # steps of the sim
+        last = s0 + n * sdt
+        mid = s0 + n * sdt / 2
+        mods += [dict(start=fl(mid), stop=fl(last), dt=fl(sdt / 2)),
+                 dict(start=fl(s0), stop=fl(mid), dt=fl(sdt / 2)),
+                 dict(start=fl(s0), stop=fl(s0 + 2 * n * sdt), dt=fl(2 * sdt)),
+                 dict(start=fl(s0 + sdt / 2), stop=fl(last + sdt / 2), dt=fl(sdt)),
+                 ] + ([dict(start=fl(s0 - sdt), stop=fl(last - sdt))] if s0 - sdt >= 1 else [])
+    else:
+        y, m, d = (int(x) for x in sim['start'][1:].split('-'))
+        d0 = dtm.date(y, m, d)
+        if 'dur' in sim: n = F(sim['dur']) // sdt
+        else: n = 11       # (the year-unit date sim of SIMS_FOR_MODS: 1999-07-01 .. 2005-01-01 by half years)
+        iso = lambda k: 'D' + (d0 + dtm.timedelta(days=int(k))).isoformat()
+        # another unit (or the same one) over exactly n of its own whole-day steps from the sim's start, and the same window
+        # starting a few days later
+        for u, w in (('day', 1), ('week', 7)):
+            mods.append(dict(unit=u, dt='1.0', start=iso(0), stop=iso(n * w)))
+            mods.append(dict(unit=u, dt='2.0', start=iso(3), stop=iso(3 + 2 * n * w)))
+        if unit in ('day', 'week'):
+            w = {'day': 1, 'week': 7}[unit]
+            mods.append(dict(start=iso(sdt * w), stop=iso((n + 1) * sdt * w)))           # the sim's step, shifted by one step
+            mods.append(dict(dt=fl(2 * sdt), stop=iso(2 * n * sdt * w)))                # twice the step over twice the span
+    return mods
+
+
 def fixed_mods():
     out = []
     kinds = ('sis', 'randomnet', 'births')
     i = 0
     for sim in SIMS_FOR_MODS:
-        for mod in single_overrides(sim):
+        for mod in single_overrides(sim) + equal_count_mods(sim):
             kind = kinds[i % 3]; i += 1
             extra = [('sis',), ('randomnet',), ()][i % 3]
             out.append(dict(sim=dict(sim), mod=mod, modkind=kind, extra=list(extra)))
